@@ -39,7 +39,7 @@ class FuncInfo:
 
     def loc(self, node: Optional[ast.AST] = None) -> str:
         n = node if node is not None else self.node
-        return f"{self.module.rel}:{getattr(n, 'lineno', 0)}"
+        return f"{self.module.rel}:{int(getattr(n, 'lineno', 0) or 0)}"
 
 
 @dataclass
@@ -98,8 +98,285 @@ class _Canon(ast.NodeTransformer):
         return node
 
 
+def _neg(e: ast.AST) -> ast.AST:
+    """Negation pushed inwards (negation normal form for and / or / not / comparisons)."""
+    if isinstance(e, ast.UnaryOp) and isinstance(e.op, ast.Not):
+        return e.operand
+    if isinstance(e, ast.BoolOp):
+        op = ast.Or() if isinstance(e.op, ast.And) else ast.And()
+        return ast.copy_location(ast.BoolOp(op=op, values=[_neg(v) for v in e.values]), e)
+    if isinstance(e, ast.Compare) and len(e.ops) == 1:
+        inv = {ast.Is: ast.IsNot, ast.IsNot: ast.Is, ast.Eq: ast.NotEq, ast.NotEq: ast.Eq, ast.In: ast.NotIn, ast.NotIn: ast.In,
+               ast.Lt: ast.GtE, ast.GtE: ast.Lt, ast.Gt: ast.LtE, ast.LtE: ast.Gt}
+        return ast.copy_location(ast.Compare(left=e.left, ops=[inv[type(e.ops[0])]()], comparators=e.comparators), e)
+    return ast.copy_location(ast.UnaryOp(op=ast.Not(), operand=e), e)
+
+
+class _Canon2(ast.NodeTransformer):
+    """Statement-level spellings read in one form:
+    `not (a and b)` as `not a or not b`, `not (x is None)` as `x is not None` (negation normal form);
+    `v = A if C else B` as `if C: v = A / else: v = B`;
+    `d.update(k=v, ...)` / `d.update({"k": v, ...})` on a name, as a statement, as `d["k"] = v; ...`."""
+
+    def visit_UnaryOp(self, node: ast.UnaryOp):
+        self.generic_visit(node)
+        if isinstance(node.op, ast.Not) and (isinstance(node.operand, (ast.BoolOp,)) or (isinstance(node.operand, ast.UnaryOp) and isinstance(node.operand.op, ast.Not))
+                                             or (isinstance(node.operand, ast.Compare) and len(node.operand.ops) == 1
+                                                 and isinstance(node.operand.ops[0], (ast.Is, ast.IsNot, ast.Eq, ast.NotEq, ast.In, ast.NotIn)))):
+            return _neg(node.operand)
+        return node
+
+    def _stmts(self, stmts):
+        out = []
+        for st in stmts:
+            st = self.visit(st)
+            if isinstance(st, list):
+                out += st
+            elif st is not None:
+                out.append(st)
+        return out
+
+    def generic_visit(self, node):
+        for fld in ("body", "orelse", "finalbody"):
+            v = getattr(node, fld, None)
+            if isinstance(v, list) and v and isinstance(v[0], ast.stmt):
+                setattr(node, fld, self._stmts(v))
+        if isinstance(node, ast.Try):
+            for h in node.handlers:
+                h.body = self._stmts(h.body)
+        for field, old in ast.iter_fields(node):
+            if field in ("body", "orelse", "finalbody") and isinstance(old, list) and old and isinstance(old[0], ast.stmt):
+                continue
+            if isinstance(old, list):
+                new = []
+                for v in old:
+                    if isinstance(v, ast.AST):
+                        v = self.visit(v)
+                        if v is None:
+                            continue
+                        if isinstance(v, list):
+                            new += v
+                            continue
+                    new.append(v)
+                old[:] = new
+            elif isinstance(old, ast.AST):
+                nv = self.visit(old)
+                if nv is None:
+                    delattr(node, field)
+                else:
+                    setattr(node, field, nv)
+        return node
+
+    def visit_Assign(self, node: ast.Assign):
+        self.generic_visit(node)
+        if isinstance(node.value, ast.IfExp) and len(node.targets) == 1 and isinstance(node.targets[0], (ast.Name, ast.Attribute)):
+            import copy as _c
+
+            a = ast.copy_location(ast.Assign(targets=[_c.deepcopy(node.targets[0])], value=node.value.body), node)
+            b = ast.copy_location(ast.Assign(targets=[_c.deepcopy(node.targets[0])], value=node.value.orelse), node)
+            return ast.copy_location(ast.If(test=node.value.test, body=[a], orelse=[b]), node)
+        return node
+
+    def visit_Expr(self, node: ast.Expr):
+        self.generic_visit(node)
+        v = node.value
+        if isinstance(v, ast.Call) and isinstance(v.func, ast.Attribute) and v.func.attr == "update" and isinstance(v.func.value, ast.Name):
+            pairs = None
+            if not v.args and v.keywords and all(k.arg is not None for k in v.keywords):
+                pairs = [(ast.Constant(value=k.arg), k.value) for k in v.keywords]
+            elif len(v.args) == 1 and not v.keywords and isinstance(v.args[0], ast.Dict) and v.args[0].keys \
+                    and all(isinstance(k, ast.Constant) for k in v.args[0].keys):
+                pairs = list(zip(v.args[0].keys, v.args[0].values))
+            if pairs:
+                out = []
+                for k, val in pairs:
+                    tgt = ast.Subscript(value=ast.Name(id=v.func.value.id, ctx=ast.Load()), slice=k, ctx=ast.Store())
+                    out.append(ast.copy_location(ast.Assign(targets=[tgt], value=val), node))
+                return out
+        return node
+
+
+_PURE_CALLS = ("isinstance", "callable", "len", "bool", "any", "all", "hasattr", "issubclass")
+
+
+def _boolish(e: ast.AST) -> bool:
+    if isinstance(e, (ast.Compare, ast.BoolOp)):
+        return all(_boolish(x) or isinstance(x, (ast.Name, ast.Attribute, ast.Constant, ast.Subscript, ast.Call, ast.Set, ast.Tuple, ast.List))
+                   for x in ast.iter_child_nodes(e) if isinstance(x, ast.expr))
+    if isinstance(e, ast.UnaryOp) and isinstance(e.op, ast.Not):
+        return True
+    if isinstance(e, ast.Call) and isinstance(e.func, ast.Name) and e.func.id in _PURE_CALLS:
+        return True
+    return False
+
+
+def _explaining_variables(fn: ast.AST) -> None:
+    """`ok = <condition>` assigned once and used only inside the tests of if / while / conditional expressions is read as the
+    condition itself (an 'explaining variable' is the commonest cosmetic change to a guard)."""
+    import copy as _c
+
+    own: List[ast.AST] = []
+    stack = list(fn.body)  # type: ignore[attr-defined]
+    while stack:
+        n = stack.pop()
+        own.append(n)
+        for c in ast.iter_child_nodes(n):
+            if not isinstance(c, (ast.FunctionDef, ast.AsyncFunctionDef, ast.ClassDef, ast.Lambda)):
+                stack.append(c)
+    nested_names = {x.id for d in ast.walk(fn) if isinstance(d, (ast.FunctionDef, ast.AsyncFunctionDef, ast.Lambda)) and d is not fn
+                    for x in ast.walk(d) if isinstance(x, ast.Name)}
+    stores: Dict[str, List[ast.AST]] = {}
+    for n in own:
+        if isinstance(n, ast.Name) and isinstance(n.ctx, ast.Store):
+            stores.setdefault(n.id, []).append(n)
+    params = {a.arg for a in fn.args.posonlyargs + fn.args.args + fn.args.kwonlyargs}  # type: ignore[attr-defined]
+    test_nodes = set()
+    for n in own:
+        if isinstance(n, (ast.If, ast.While, ast.IfExp)):
+            st2 = [n.test]
+            while st2:
+                t = st2.pop()
+                test_nodes.add(id(t))
+                if isinstance(t, ast.BoolOp):
+                    st2 += t.values
+                elif isinstance(t, ast.UnaryOp) and isinstance(t.op, ast.Not):
+                    st2.append(t.operand)
+    cands: Dict[str, ast.Assign] = {}
+    for n in own:
+        if isinstance(n, ast.Assign) and len(n.targets) == 1 and isinstance(n.targets[0], ast.Name) and _boolish(n.value):
+            nm = n.targets[0].id
+            if len(stores.get(nm, [])) == 1 and nm not in params and nm not in nested_names:
+                cands[nm] = n
+    for nm, asg in list(cands.items()):
+        loads = [n for n in own if isinstance(n, ast.Name) and n.id == nm and isinstance(n.ctx, ast.Load)]
+        if not loads or any(id(n) not in test_nodes or getattr(n, "lineno", 0) < getattr(asg, "lineno", 0) for n in loads):
+            del cands[nm]
+    if not cands:
+        return
+
+    class _S(ast.NodeTransformer):
+        def visit_Name(self, node: ast.Name):
+            if isinstance(node.ctx, ast.Load) and node.id in cands:
+                return ast.copy_location(self.visit(_c.deepcopy(cands[node.id].value)), node)
+            return node
+
+        def visit_FunctionDef(self, node):
+            return node if node is not fn else self.generic_visit(node)
+
+        visit_AsyncFunctionDef = visit_FunctionDef
+
+    drop = {id(a) for a in cands.values()}
+
+    def prune(stmts):
+        out = []
+        for st in stmts:
+            if id(st) in drop:
+                continue
+            for fld in ("body", "orelse", "finalbody"):
+                v = getattr(st, fld, None)
+                if isinstance(v, list) and v and isinstance(v[0], ast.stmt) and not isinstance(st, (ast.FunctionDef, ast.AsyncFunctionDef, ast.ClassDef)):
+                    setattr(st, fld, prune(v) or ([ast.Pass()] if fld == "body" else []))
+            if isinstance(st, ast.Try):
+                for h in st.handlers:
+                    h.body = prune(h.body) or [ast.Pass()]
+            out.append(st)
+        return out
+    _S().generic_visit(fn)
+    fn.body = prune(fn.body) or [ast.Pass()]  # type: ignore[attr-defined]
+
+
+def _plain_chain(e: ast.AST) -> bool:
+    while isinstance(e, ast.Attribute):
+        e = e.value
+    return isinstance(e, ast.Name)
+
+
+def _aliases(fn: ast.AST) -> None:
+    """`x = self.a.b` (a name or an attribute chain), assigned once, never re-bound, with a source nobody assigns in the function,
+    is read as the chain itself (a local introduced only to shorten an expression)."""
+    import copy as _c
+
+    own: List[ast.AST] = []
+    stack = list(fn.body)  # type: ignore[attr-defined]
+    while stack:
+        n = stack.pop()
+        own.append(n)
+        for c in ast.iter_child_nodes(n):
+            if not isinstance(c, (ast.FunctionDef, ast.AsyncFunctionDef, ast.ClassDef, ast.Lambda)):
+                stack.append(c)
+    nested_names = {x.id for d in ast.walk(fn) if isinstance(d, (ast.FunctionDef, ast.AsyncFunctionDef, ast.Lambda)) and d is not fn
+                    for x in ast.walk(d) if isinstance(x, ast.Name)}
+    params = {a.arg for a in fn.args.posonlyargs + fn.args.args + fn.args.kwonlyargs}  # type: ignore[attr-defined]
+    store_count: Dict[str, int] = {}
+    stored_chains = set()
+    for n in own:
+        if isinstance(n, ast.Name) and isinstance(n.ctx, (ast.Store, ast.Del)):
+            store_count[n.id] = store_count.get(n.id, 0) + 1
+        if isinstance(n, ast.Attribute) and isinstance(n.ctx, (ast.Store, ast.Del)):
+            stored_chains.add(ast.unparse(n))
+        if isinstance(n, (ast.Global, ast.Nonlocal)):
+            for nm in n.names:
+                store_count[nm] = store_count.get(nm, 0) + 2
+    cands: Dict[str, ast.Assign] = {}
+    for st in own:
+        if isinstance(st, ast.Assign) and len(st.targets) == 1 and isinstance(st.targets[0], ast.Name) and isinstance(st.value, ast.Attribute) \
+                and _plain_chain(st.value):
+            nm = st.targets[0].id
+            root = st.value
+            while isinstance(root, ast.Attribute):
+                root = root.value
+            src = ast.unparse(st.value)
+            if store_count.get(nm, 0) == 1 and nm not in params and nm not in nested_names and store_count.get(root.id, 0) == 0 \
+                    and not any(src == c or src.startswith(c + ".") or c.startswith(src + ".") for c in stored_chains) \
+                    and root.id in params | {"self", "cls"}:
+                cands[nm] = st
+    for nm, asg in list(cands.items()):
+        loads = [n for n in own if isinstance(n, ast.Name) and n.id == nm and isinstance(n.ctx, ast.Load)]
+        if not loads or any(getattr(n, "lineno", 0) < getattr(asg, "lineno", 0) for n in loads):
+            del cands[nm]
+    if not cands:
+        return
+
+    class _S(ast.NodeTransformer):
+        def visit_Name(self, node: ast.Name):
+            if isinstance(node.ctx, ast.Load) and node.id in cands:
+                return ast.copy_location(_c.deepcopy(cands[node.id].value), node)
+            return node
+
+        def visit_FunctionDef(self, node):
+            return node if node is not fn else self.generic_visit(node)
+
+        visit_AsyncFunctionDef = visit_FunctionDef
+
+    drop = {id(a) for a in cands.values()}
+
+    def prune(stmts):
+        out = []
+        for st in stmts:
+            if id(st) in drop:
+                continue
+            for fld in ("body", "orelse", "finalbody"):
+                v = getattr(st, fld, None)
+                if isinstance(v, list) and v and isinstance(v[0], ast.stmt) and not isinstance(st, (ast.FunctionDef, ast.AsyncFunctionDef, ast.ClassDef)):
+                    setattr(st, fld, prune(v) or ([ast.Pass()] if fld == "body" else []))
+            if isinstance(st, ast.Try):
+                for h in st.handlers:
+                    h.body = prune(h.body) or [ast.Pass()]
+            out.append(st)
+        return out
+    _S().generic_visit(fn)
+    fn.body = prune(fn.body) or [ast.Pass()]  # type: ignore[attr-defined]
+
+
 def canonical(tree: ast.Module) -> ast.Module:
-    return _Canon().visit(tree)
+    tree = _Canon().visit(tree)
+    tree = _Canon2().visit(tree)
+    for fn in [n for n in ast.walk(tree) if isinstance(n, (ast.FunctionDef, ast.AsyncFunctionDef))]:
+        _aliases(fn)
+        _explaining_variables(fn)
+    tree = _Canon2().visit(tree)  # the substituted conditions may expose `not (..)` again
+    ast.fix_missing_locations(tree)
+    return tree
 
 
 class LoadError(Exception):
@@ -146,6 +423,25 @@ class Program:
         from .roles import canonical_roles
 
         self.roles: Dict[str, str] = canonical_roles({name: m.tree for name, m in self.modules.items()})
+        from .roles import outline_activation
+
+        if outline_activation({name: m.tree for name, m in self.modules.items() if not name.endswith("_twzsa_control")}):
+            self.roles["_xn_active_in_call"] = "(written in place)"
+        # helpers introduced after the rules were written are read as if written in place (the unchanged tree has none)
+        from .inline import inline_new_helpers, scalarize_new_aggregates
+        from .known_names import KNOWN_CLASSES, KNOWN_FUNCTIONS
+
+        real = {name: m.tree for name, m in self.modules.items() if not name.endswith("_twzsa_control")}
+        self.inlined: List[str] = inline_new_helpers(real, set(KNOWN_FUNCTIONS))
+        self.inlined += scalarize_new_aggregates(real, set(KNOWN_CLASSES))
+        if self.inlined:
+            # the expanded bodies bring their own shortcuts (aliases, explaining variables): read them in the usual form too
+            for t in real.values():
+                for fn_ in [n for n in ast.walk(t) if isinstance(n, (ast.FunctionDef, ast.AsyncFunctionDef))]:
+                    _aliases(fn_)
+                    _explaining_variables(fn_)
+                _Canon2().visit(t)
+                ast.fix_missing_locations(t)
         for m in self.modules.values():
             for s in m.tree.body:
                 self._index_stmt(m, s)
